@@ -105,6 +105,14 @@ func testCert(key, issuer, serial string) *x509.Certificate {
 		KeyUsage: x509.KeyUsageDigitalSignature, BasicConstraintsValid: true,
 		SignatureAlgorithm: x509.SHA256WithRSA,
 	}
+	switch issuer {
+	case "sig384":
+		tmpl.SignatureAlgorithm = x509.SHA384WithRSA // the certificate itself is signed with another algorithm than the one used for SignedData
+	case "sig512":
+		tmpl.SignatureAlgorithm = x509.SHA512WithRSA
+	case "sigpss":
+		tmpl.SignatureAlgorithm = x509.SHA256WithRSAPSS
+	}
 	parent, signKey := tmpl, k
 	if issuer == "ca" {
 		// issued by a separate CA: subject and issuer differ
